@@ -5,7 +5,7 @@ import sys
 
 from . import core
 
-GENERATORS = ["gen_timespan"]
+GENERATORS = ["gen_timespan", "gen_universe"]
 
 
 def main():
